@@ -63,6 +63,9 @@ def configs(tier):
         if not es:
             continue
         out.append(dict(family='graph', n=n, edges=[list(e) for e in es], tags=['graph']))
+    # self-loops: networkx counts a loop twice in the degree, and "degree" is what the helpers are documented to use
+    for n, es in ((2, [(0, 1), (0, 0)]), (3, [(0, 1), (1, 2), (1, 1)]), (3, [(0, 1), (1, 2), (2, 2)]), (4, [(0, 1), (1, 2), (2, 3), (0, 0), (3, 3)])):
+        out.append(dict(family='graph', n=n, edges=[list(e) for e in es], loops=True, tags=['graph', 'self-loops']))
     return out
 
 
@@ -177,7 +180,7 @@ def run_path(h, cfg):
         h.require('Pk=histogram', True)
     else:
         h.fail('Pk=histogram', {'Pk': {str(k): float(v) for k, v in Pk.items()}, 'histogram': hist})
-    if all(d > 0 for d in deg.values()):
+    if all(d > 0 for d in deg.values()) and not cfg.get('loops'):
         Pnk = h.call_must_succeed('no-exception', an.get_Pnk, G)
         if Pnk is not None:
             bad = {k1: float(sum(row.values())) for k1, row in Pnk.items() if abs(sum(row.values()) - 1) > 1e-12}
